@@ -620,7 +620,7 @@ nd_linear, nd_nearest = _nd_contract(False), _nd_contract(True)
 
 CONTRACTS = [enclosing, weights, data_interpolator, nd_linear, nd_nearest]
 import contracts.C13_bounded as _B
-BOUNDED = [Bounded("dataset_axes_rank_1_to_4", _B.dataset_axes,
+BOUNDED = [Bounded("spectrum_interpolation", _B.spectrum_interpolation), Bounded("dataset_axes_rank_1_to_4", _B.dataset_axes,
                    "ranks 3 and 4, every axis position, passive sizes 1..3, pass-through, operands unmodified - through interpolate_dataset_along_axis"),
            Bounded("time_axes_and_grid", _B.time_axes_and_grids,
                    "datetime64 axes (to_datetime64 of the targets), interpolate_dataset_grid applies the coordinates in order and forwards nearest_neighbour")]
